@@ -3,7 +3,9 @@
 * seeded changes kept under /verif/seeded/<name>/patch.diff (written by independent agents, confirmed to
   break the property while the test suite passes) -- the check must report each of them;
 * built-in mutants (small source edits computed here) -- the check must report each of them;
-* benign variants (behaviour-preserving rewrites) -- the check must stay silent.
+* benign variants (behaviour-preserving rewrites: built-in text edits, and the refactorings kept under
+  /verif/benign/<name>/patch.diff, written by independent agents and confirmed by the test suite and an
+  input/output digest) -- the check must stay silent.
 
 Scratch copies live under $TMPDIR/pstatic-* and are removed when done.  The copies are only *analysed*
 (check.py --root <copy>), never imported.  A variant whose anchor text is no longer present in the tree is
@@ -77,7 +79,7 @@ def _run_check(prop: str, root: str) -> tuple[int, list[str]]:
 def _one(prop: str, base: str, v: dict) -> dict:
     root = _make_copy(base)
     try:
-        if v["kind"] == "seeded":
+        if "patch" in v:
             stale = _apply_patch(root, v["patch"])
         else:
             stale = _apply_text(root, v)
@@ -105,6 +107,13 @@ def variants_for(prop: str) -> list[dict]:
             meta = json.load(open(mp))
             if prop in meta.get("reported_by", {}):
                 out.append({"name": "seeded/" + name, "kind": "seeded", "patch": pp})
+    bd = os.path.join(VERIF, "benign")
+    if os.path.isdir(bd):
+        # behaviour-preserving refactorings written by independent agents: no check may report any of them
+        for name in sorted(os.listdir(bd)):
+            pp = os.path.join(bd, name, "patch.diff")
+            if os.path.exists(pp):
+                out.append({"name": "benign/" + name, "kind": "benign", "patch": pp})
     t = _table()
     for v in t.get("mutants", {}).get(prop, []):
         out.append(dict(v, kind="mutant"))
